@@ -1345,3 +1345,26 @@ def rule_atomicmisc(text):
             apps.append(_app(rname, text, mm.start(), mm.end(), new, why))
             text = text[:mm.start()] + new + text[mm.end():]
     return text, apps
+
+
+def rule_rangemisc(text):
+    """range_query one-offs"""
+    apps = []
+    table = [
+        (r"epoch\s*::\s*pin\s*\(\s*\)", "epoch_pin()", "R-handle", "shim: pinning the epoch has no sequential effect"),
+        (r"let\s+mut\s+results\s*=\s*Vec\s*::\s*with_capacity\s*\(", "let mut results: Vec<(Vec<u8>, Vec<u8>)> = Vec::with_capacity(", "R-type", "type annotation (the function's return type) that inference would have provided"),
+        (r"(\w+)\s*\.\s*key\s*\(\s*\)\s*\.\s*as_slice\s*\(\s*\)\s*>=\s*(\w+)", r"bytes_ge(\1.key(), \2)", "R-seq", "shim: byte-wise (lexicographic) comparison of two keys"),
+        (r"(\w+)\s*\.\s*key\s*\(\s*\)\s*\.\s*as_slice\s*\(\s*\)\s*>\s*(\w+)", r"bytes_gt(\1.key(), \2)", "R-seq", "shim: byte-wise (lexicographic) comparison of two keys"),
+        (r"(\w+)\s*\.\s*key\s*\(\s*\)\s*\.\s*clone\s*\(\s*\)", r"vec_clone_u8(\1.key())", "R-clone", "shim: cloning a Vec<u8> copies its bytes"),
+    ]
+    for pat, rep, rname, why in table:
+        while True:
+            mm = re.search(pat, text)
+            if not mm:
+                break
+            new = mm.expand(rep)
+            apps.append(_app(rname, text, mm.start(), mm.end(), new, why))
+            text = text[:mm.start()] + new + text[mm.end():]
+    text, a = _method_to_fn(text, "min", "min_usize", "R-arith", "definition of Ord::min on usize (verified shim)")
+    apps += a
+    return text, apps
